@@ -26,6 +26,17 @@ func init() {
 func runC12(c *core.Ctx) {
 	g := gen.New(c.R)
 	t := caseTree(c, g, 6)
+	if c.Case%8 == 3 {
+		// a third-party leaf that declares safe strings through SafeDetails() and ALSO has a
+		// pkg/errors-style StackTrace(), at the end of the main chain
+		n := t
+		for len(n.Kids) == 1 && !model.IsMulti(n) && len(n.Kids[0].Kids) > 0 {
+			n = n.Kids[0]
+		}
+		if len(n.Kids) == 1 && !model.IsMulti(n) {
+			n.Kids[0] = g.Make("stacksafeleaf", nil, nil)
+		}
+	}
 	coverTree(c, t)
 	e, _, ok := safeBuild(c, t)
 	if !ok {
